@@ -1,9 +1,11 @@
 #!/usr/bin/env python3
-"""usage: store_seed.py Cnn 'change' 'needs'  -- confirms /tmp/wt/Cnn with confirm_seed.sh, stores it as
+"""usage: store_seed.py Cnn 'change' 'needs'  -- confirms $SEED_WT/Cnn with confirm_seed.sh, stores it as
 seeded/Cnn-b (or -c ...), removes the worktree"""
 import sys, os, subprocess, json, shutil, glob
+WT = os.environ.get("SEED_WT", "/root/scratch/wt3")
+ROUND = os.environ.get("SEED_ROUND", "third")
 pid, change, needs = sys.argv[1:4]
-out = subprocess.run(["/verif/bin/confirm_seed.sh", pid, f"/tmp/wt/{pid}"], capture_output=True, text=True).stdout
+out = subprocess.run(["/verif/bin/confirm_seed.sh", pid, f"{WT}/{pid}"], capture_output=True, text=True).stdout
 res = [l for l in out.splitlines() if l.startswith("test result")]
 print("\n".join(res))
 ok = len(res) == 3 and "185 passed" in res[0] and "FAILED" in res[1] and "ok." in res[2]
@@ -14,11 +16,11 @@ while os.path.exists(f"/verif/seeded/{pid}-{suffix}"):
     suffix = chr(ord(suffix) + 1)
 d = f"/verif/seeded/{pid}-{suffix}"
 os.makedirs(d)
-for f in glob.glob(f"/tmp/wt/{pid}/OUT/*"):
+for f in glob.glob(f"{WT}/{pid}/OUT/*"):
     shutil.copy(f, d)
 json.dump({"id": f"{pid}-{suffix}", "property": pid, "change": change, "needs_to_manifest": needs,
-           "source": "independent sub-agent (second round: told which sites were already used) given only the property text and a scratch worktree",
+           "source": "independent sub-agent (" + ROUND + " round: told which sites were already used) given only the property text and a scratch worktree",
            "confirmed": "bin/confirm_seed.sh: existing suite 185 passed with the change; demo fails with it, passes without it",
            "detected_by": []}, open(d + "/meta.json", "w"), indent=1)
-subprocess.run(["git", "-C", "/repo", "worktree", "remove", "--force", f"/tmp/wt/{pid}"])
+subprocess.run(["git", "-C", "/repo", "worktree", "remove", "--force", f"{WT}/{pid}"])
 print("stored", d)
